@@ -286,7 +286,8 @@ def c11_lengths(_):
             return
         acc.outcome(f"{name_w}/{name_r} ok")
 
-    clens = [0, 1, 126, 127, 128, 16382, 16383, 16384, 2097150, 2097151, 2097152]
+    HUGE = 2**21 + 4321  # beyond 1 MiB and 2 MiB, a multiple of neither
+    clens = [0, 1, 126, 127, 128, 16382, 16383, 16384, 2**20 - 1, 2**20, 2**20 + 1, 2097150, 2097151, 2097152, HUGE]
     llens = [0, 1, 127, 128, 255, 256, 32766, 32767]
     n = 0
     for L in clens:
@@ -312,7 +313,7 @@ def c11_lengths(_):
         check("write_legacy_string", "read_legacy_string", s, L.to_bytes(2, "big") + s.encode(), (n, L))
         check("write_nullable_legacy_string", "read_nullable_legacy_string", s, L.to_bytes(2, "big") + s.encode(), (n, L))
     check("write_nullable_legacy_string", "read_nullable_legacy_string", None, b"\xff\xff", (n, -1))
-    for L in llens + [32768, 65535, 65536, 2**20]:
+    for L in llens + [32768, 65535, 65536, 2**20 - 1, 2**20, 2**20 + 1, HUGE]:
         n += 1
         b = b"\x00" * L
         check("write_legacy_bytes", "read_legacy_bytes", b, L.to_bytes(4, "big") + b, (n, L))
@@ -339,6 +340,19 @@ def c11_lengths(_):
                 bad(acc, "length-prefixed", f"{rn}/negative-length-accepted", rn, {"bytes": data}, "rejected", repr(got[1:])[:100], (n, neg))
             else:
                 acc.outcome("negative length rejected")
+    # a huge value cut short anywhere in its last mebibyte is an underflow, never a shorter value
+    from kio.serial.errors import BufferUnderflow
+
+    for rn, pre in (("read_compact_string_as_bytes", refcodec.uvarint(HUGE + 1)), ("read_legacy_bytes", HUGE.to_bytes(4, "big")),
+                    ("read_compact_string", refcodec.uvarint(HUGE + 1)), ("read_nullable_legacy_bytes", HUGE.to_bytes(4, "big"))):
+        for missing in (1, 2, 1000, 4321, 4322, 2**19, 2**20 - 1, 2**20, 2**20 + 1, 2**21):
+            acc.add("evaluations")
+            n += 1
+            got = rd(getattr(r, rn), pre + b"a" * (HUGE - missing))
+            if got[0] != "exc" or not isinstance(got[1], BufferUnderflow):
+                bad(acc, "length-prefixed", f"{rn}/huge-value-cut-short-not-reported", rn, {"declared": HUGE, "missing": missing}, "BufferUnderflow", repr(got[1:])[:100], (n, missing))
+            else:
+                acc.outcome("huge value cut short: underflow")
     for rn in ("read_compact_string", "read_compact_string_nullable", "read_compact_string_as_bytes", "read_compact_string_as_bytes_nullable"):
         # a compact length larger than what follows is an underflow, never a shorter value
         acc.add("evaluations")
